@@ -4,6 +4,7 @@ func init() {
 	vRegister("H_C19_single", H_C19_single)
 	vRegister("H_C19_pair", H_C19_pair)
 	vRegister("H_C19_vacuity", H_C19_vacuity)
+	vRegister("H_C19_text", H_C19_text)
 }
 
 // vPresentation turns wire labels into the library's presentation form with the real
@@ -171,4 +172,34 @@ func H_C19_vacuity() {
 	s := vPresentation(labels)
 	vReach("built")
 	vAssert(CountLabel(s) != 2, "vacuity-must-fail")
+}
+
+// H_C19_text: any valid presentation text (every escape spelling the packer accepts, not only the
+// spellings the library emits): the helpers agree with the reference label sequence.
+func H_C19_text() {
+	maxN := vParam("C19.textlen", 4)
+	n := 1 + vChoice("len", maxN)
+	s := string(vBytes("t", n))
+	labels, _, ok := refParseName(s)
+	vAssume(ok && refLabelsValid(labels))
+	// the helpers are specified on printable text; raw control/8-bit octets must be written as \DDD
+	for i := 0; i < n; i++ {
+		vAssume(s[i] > ' ' && s[i] <= '~')
+	}
+	nl := len(labels)
+	vReach("valid-text")
+	vObserve("text", s, CountLabel(s), len(Split(s)))
+	vAssert(CountLabel(s) == nl, "countlabel")
+	idx := Split(s)
+	vAssert(len(idx) == nl, "split-count")
+	sl := SplitDomainName(s)
+	vAssert(len(sl) == nl, "splitdomainname-count")
+	if len(sl) == nl {
+		for i := range sl {
+			got, gfq, gok := refParseName(sl[i])
+			vAssert(gok && !gfq && len(got) == 1 && refBytesEqual(got[0], labels[i]), "splitdomainname-label")
+		}
+	}
+	vAssert(IsSubDomain(s, s), "issubdomain-reflexive")
+	vAssert(CompareDomainName(s, s) == nl, "comparedomainname-self")
 }
